@@ -6,6 +6,7 @@ import QcoVerif.Driver.Kernel
 import QcoVerif.Driver.Conn
 import QcoVerif.Driver.Ident
 import QcoVerif.Driver.Noise
+import QcoVerif.Driver.RepCode
 /-
   Line-protocol driver.  `heap <cmd…>` drives a stateful build-program session (extensions add
   commands); every other module is stateless: `<module> <args…>` → one answer line.
@@ -14,7 +15,8 @@ import QcoVerif.Driver.Noise
 open Qco Qco.Driver
 
 def stateless : List (String × (List String → String)) :=
-  [("kernel", Kernel.handle), ("conn", Conn.handle), ("ident", Ident.handle), ("noise", Noise.handle)]
+  [("kernel", Kernel.handle), ("conn", Conn.handle), ("ident", Ident.handle), ("noise", Noise.handle),
+   ("repcode", RepCode.handle)]
 
 def heapExtensions : List (Sess → List String → Option (Sess × String)) :=
   [HeapStim.step, HeapOpenQL.step, HeapDraw.step]
